@@ -9,9 +9,13 @@ Lemma process_dispatch_is_classify : forall c last cur tl tc,
 Proof. intros. reflexivity. Qed.
 
 (* what each branch does, as the model of C03/C04 assumes: only a directly extending block or a tie break applies a block,
-   only a tie break deletes the tip, only a different chain starts sync, and the block is validated before it is applied *)
+   only a tie break deletes the tip, only a different chain starts sync, and the block is validated before it is applied.
+   The receive time read by the tie-break rule (lastBlockReceived) is recorded only in the two branches that make the
+   received block the tip, and only AFTER it has been applied: a rejected block must not change how the next block is
+   classified (in the tie-break branch the textual order is: apply new block; on failure re-apply the old tip and return;
+   else record the time). *)
 Definition expected_branches : list (fc_case * list action) :=
-  [ (Identical, []); (ValidBlock, [ActValidate; ActApply]); (DoubleForging, []);
-    (TieBreak, [ActValidate; ActDelete; ActApply; ActApply]); (DifferentChain, [ActSync]) ].
+  [ (Identical, []); (ValidBlock, [ActValidate; ActApply; ActSetReceived]); (DoubleForging, []);
+    (TieBreak, [ActValidate; ActDelete; ActApply; ActApply; ActSetReceived]); (DifferentChain, [ActSync]) ].
 Lemma process_branches_expected : process_branches = expected_branches.
 Proof. reflexivity. Qed.
